@@ -407,6 +407,39 @@ func (w *W) addReach(id string, cond *Term) {
 	}
 }
 
+// declareStaticReach: every vReach("id") that occurs in the harness (the entry function and its closures) is a
+// reachability witness even if the walk never gets there - a harness that blocks before its assertions would
+// otherwise pass vacuously, with the witness (and the assertions after the block) simply absent.
+func (w *W) declareStaticReach(root *ssa.Function) {
+	seen := map[*ssa.Function]bool{}
+	var visit func(fn *ssa.Function)
+	visit = func(fn *ssa.Function) {
+		if fn == nil || seen[fn] {
+			return
+		}
+		seen[fn] = true
+		for _, b := range fn.Blocks {
+			for _, ins := range b.Instrs {
+				c, ok := ins.(ssa.CallInstruction)
+				if !ok {
+					continue
+				}
+				if callee := c.Common().StaticCallee(); callee != nil && callee.Name() == "vReach" && len(c.Common().Args) == 1 {
+					if id, ok := constString(c.Common().Args[0]); ok {
+						if _, have := w.reach[id]; !have {
+							w.addReach(id, False)
+						}
+					}
+				}
+			}
+		}
+		for _, a := range fn.AnonFuncs {
+			visit(a)
+		}
+	}
+	visit(root)
+}
+
 // run executes the harness for R rounds, then the observer pass and the final-state predicates.
 func (w *W) run(root *ssa.Function) {
 	main := &Thread{w: w, id: 0, fn: FAlt{g: True, fn: root}, ops: map[int]*opState{}, spawned: True, key: mkKey(0, -1, 0, 0), name: "harness", truncated: False, finished: False}
